@@ -20,7 +20,14 @@ def argv_for(cfg, extra=()):
     elif mode == 'pipe':
         argv += ['-p']
     elif mode == 'run':
-        argv += ['-r'] + list(cfg.get('prog') or ['prog'])
+        sp = cfg.get('run_spelling') or '-r'
+        if sp == 'cluster' and argv[1] == '-C':
+            # the run marker as the last letter of a cluster of single-letter flags
+            del argv[1]
+            sp = '-Cr'
+        elif sp == 'cluster':
+            sp = '-r'
+        argv += [sp] + list(cfg.get('prog') or ['prog'])
     else:
         raise AssertionError(mode)
     return argv
